@@ -227,7 +227,7 @@ def run_case(case):
             sim.add(m=1.0)
             rr = random.Random(case['seed'] + 1)
             for i in range(1, N):
-                sim.add(m=float(m[i]) if m[i] > 0 else 1e-12, a=1.0 + 0.6 * i + rr.uniform(0, 0.2), e=rr.uniform(0, 0.2), inc=rr.uniform(0, 0.3), f=rr.uniform(0, 6.28),
+                sim.add(m=float(m[i]) if (m[i] > 0 or case['seed'] % 2) else 1e-12, a=1.0 + 0.6 * i + rr.uniform(0, 0.2), e=rr.uniform(0, 0.2), inc=rr.uniform(0, 0.3), f=rr.uniform(0, 6.28),
                         omega=rr.uniform(0, 6.28), Omega=rr.uniform(0, 6.28), primary=sim.particles[0])
             sim.move_to_com()
             sim.integrator = 'whfast'
@@ -240,6 +240,7 @@ def run_case(case):
         counters['particles_checked'] += N
         if gt(d, 2e3 * EPS * sc):
             viol.append(dict(mech='force:jacobi-differs-from-basic', msg='after one WHFast step: max|diff|=%.3e scale %.3e N=%d' % (d, sc, N)))
+        counters['jacobi_cases_with_exactly_massless_bodies'] = counters.get('jacobi_cases_with_exactly_massless_bodies', 0) + int(case['seed'] % 2 == 1 and bool((m[1:] == 0).any()))
         nontrivial = N >= 3
     elif kind in ('mercurius', 'trace'):
         sim = rebound.Simulation()
